@@ -1727,7 +1727,10 @@ def _format_t(path, root=T):
     while i < len(path):
         op, arg = path[i], path[i + 1]
         if op == '.':
-            prepr.append('.' + arg)
+            if arg.startswith('__'):
+                prepr.append('.__(%r)' % arg[2:])
+            else:
+                prepr.append('.' + arg)
         elif op == '[':
             if type(arg) is tuple and len(arg) > 1:
                 index = ", ".join([_format_slice(x) for x in arg])
